@@ -253,11 +253,15 @@ def r2_breakers(ctx):
     P = ctx.P
     f = ctx.anchor(DROP_ROOT)
     if f:
-        dp = f.calls_to('des::net::gate::Gate::dissolve_paths')
-        ok = len(dp) == 1 and bool(f.loops_containing(dp[0].b))
+        items = per_item_calls(P, f, 'des::net::gate::Gate::dissolve_paths')
+        ok = len(items) == 1 and items[0].exhaustive
         if ok:
-            recv = f.expr_operand(dp[0].args[0], dp[0].b, 'T')
-            ok = any(x[0] == 'call' and x[1].endswith('ModuleContext::gates') for x in walk(recv))
+            w = items[0]
+            src = w.it if w.it is not None else ('unknown',)
+            # the iteration runs over all gates of the module: ModuleContext::gates() or a copy of the `gates` field
+            ok = any((x[0] == 'call' and x[1].endswith('ModuleContext::gates')) or (x[0] == 'field' and x[2] == 'gates') for x in walk(src)) and \
+                not any(x[0] == 'call' and x[1].split('::')[-1] in ('take', 'skip', 'step_by', 'filter', 'take_while', 'skip_while') for x in walk(src)) and \
+                (w.trees is None or from_item(w.fn, w.trees[0]))
         ctx.check(ok, 'drop-dissolves-all-gates', 'ModuleContext::drop dissolves the paths of every gate of the module', f.where())
     g = ctx.anchor('des::net::gate::Gate::dissolve_paths')
     if g:
@@ -304,6 +308,13 @@ def r3_globals_cleared(ctx):
                     v = f.expr_rvalue(st['r'], b, i)
                     if v[0] == 'call' and v[1].endswith('BufferContext::new'):
                         ok = True
+        # equivalent: mem::replace(&mut *ctx, BufferContext::new()) / mem::take
+        for s2 in f.calls():
+            if s2.name == 'std::mem::replace' and len(s2.args) == 2:
+                v = peel(f.expr_operand(s2.args[1], s2.b, 'T'))
+                d = f.expr_operand(s2.args[0], s2.b, 'T')
+                if v[0] == 'call' and v[1].endswith('BufferContext::new') and any(x[0] == 'call' and x[1].endswith('::lock') for x in walk(d)):
+                    ok = True
         cleared = any(s.name.endswith('Vec::clear') and any(x[0] == 'field' and x[2] == 'events' for x in walk(f.expr_operand(s.args[0], s.b, 'T'))) for s in f.calls())
         w_globals = bool(f.writes_to_field('globals'))
         ctx.check(ok or (cleared and w_globals), 'buf-drop-resets-buffer',
@@ -315,7 +326,17 @@ def r3_globals_cleared(ctx):
         mod_reset = bool(g.calls_to('des::net::module::ctx::module_ctx_drop')) or any('MOD_CTX' in show(g.expr_operand(s.args[0], s.b, 'T')) for s in g.calls() if s.args)
         md = P.fns.get('des::net::module::ctx::module_ctx_drop')
         if md is not None:
-            mod_reset = mod_reset and any('MOD_CTX' in show(md.expr_operand(s.args[0], s.b, 'T')) for s in md.calls() if s.args)
+            def swaps_modctx(h, depth=2):
+                for s in h.calls():
+                    if s.args and 'MOD_CTX' in show(h.expr_operand(s.args[0], s.b, 'T')) and s.name.split('::')[-1] in ('swap', 'reset', 'replace', 'take', 'set'):
+                        other = peel(h.expr_operand(s.args[1], s.b, 'T')) if len(s.args) > 1 else None
+                        if other is None or any(x[0] == 'agg' and str(x[1]).endswith('Option::None') for x in walk(other)):
+                            return True
+                    callee = P.fns.get(s.name)
+                    if depth > 0 and callee is not None and callee.key.startswith('des::net::module::ctx::') and swaps_modctx(callee, depth - 1):
+                        return True
+                return False
+            mod_reset = mod_reset and swaps_modctx(md)
         ctx.check(mod_reset, 'guard-drop-modctx', 'dropping the simulation statics guard clears the global module context', g.where())
     # clearing the global module context drops the context that was stored there
     sw = P.fns.get('des_net_utils::sync::swaplock::SwapLock::reset')
